@@ -257,6 +257,7 @@ func runC11(c *Ctx) {
 	}
 	c11DuringConnect(c)
 	c11Reconnecting(c)
+	c11LateAcks(c)
 	if last != nil {
 		c.Sample(map[string]any{"wire": last.TraceStrings()})
 	}
@@ -323,12 +324,12 @@ func c11DuringConnect(c *Ctx) {
 // c11Reconnecting: Connect / Disconnect of the reconnecting client.
 func c11Reconnecting(c *Ctx) {
 	c.Bound("reconnecting", "ReconnectClient.Connect against a broker that never sends CONNACK / always refuses / cannot be dialled, context cancelled or expiring; Disconnect on an established connection and with a cancelled context; P<=1")
-	for _, mode := range []string{"noconnack-cancel", "refused-deadline", "dialerr-cancel", "disconnect", "disconnect-cancelled-ctx"} {
+	for _, mode := range []string{"noconnack-cancel", "refused-deadline", "dialerr-cancel", "disconnect", "disconnect-cancelled-ctx", "cancel-racing-success"} {
 		mode := mode
 		var net *env.Net
 		sc := &vrt.Scenario{
 			Name:  "C11/reconnecting/" + mode,
-			Bound: vrt.Budget{P: 1},
+			Bound: vrt.Budget{P: 2, S: 1},
 			Cfg:   vrt.Config{Horizon: int64(120 * time.Second)},
 			Body: func() {
 				net = env.NewNet()
@@ -356,6 +357,27 @@ func c11Reconnecting(c *Ctx) {
 				returned := false
 				var err error
 				vrt.Go("rc-connect", func() { _, err = rc.Connect(ctx, "c11"); returned = true })
+				if mode == "cancel-racing-success" {
+					// the caller gives up at the very moment the first connection succeeds; afterwards
+					// Disconnect must still return and nothing may be left running
+					vrt.Go("canceller", cancel)
+					vrt.Quiesce()
+					if !returned {
+						vrt.Failf("c11/still-blocked:rc-connect:"+mode, "ReconnectClient.Connect does not return")
+					}
+					dret := false
+					vrt.Go("rc-disconnect", func() { rc.Disconnect(bg); dret = true })
+					vrt.Quiesce()
+					if !dret {
+						vrt.Failf("c11/still-blocked:rc-disconnect:"+mode, "ReconnectClient.Disconnect does not return after a Connect whose context was cancelled while the connection was being established (Connect returned %v)", err)
+					}
+					for _, t := range vrt.Tasks() {
+						if !t.Done && (strings.HasPrefix(t.Name, "reconnclient:") || strings.HasPrefix(t.Name, "connect:")) {
+							vrt.Failf("c11/task-left-running:"+mode, "library goroutine %s is still blocked in %s after Disconnect returned", t.Name, t.Blocked)
+						}
+					}
+					return
+				}
 				vrt.Settle()
 				switch mode {
 				case "noconnack-cancel", "dialerr-cancel":
@@ -425,4 +447,117 @@ func (p c11Peer) OnData(c *env.Conn, data []byte) error {
 		c.PeerClose("DISCONNECT received")
 	}
 	return nil
+}
+
+
+// c11LateAcks: a call was abandoned (context cancelled); afterwards the broker's late answer
+// arrives, even twice, and then the connection ends.  Done() must still be closed, the reader must
+// exit and a later call must still complete.
+func c11LateAcks(c *Ctx) {
+	c.Bound("late-acks", "each of {p1, p2 first phase, p2 second phase, sub, unsub, ping} is abandoned by cancelling its context (ping: twice), then the late acknowledgement is delivered twice, then a fresh Ping must complete and a peer close must close Done() and end the reader; P<=1")
+	for _, cl := range []c11Call{{"p1", 0}, {"p2", 0}, {"p2", 1}, {"sub", 0}, {"unsub", 0}, {"ping", 0}} {
+		cl := cl
+		var net *env.Net
+		sc := &vrt.Scenario{
+			Name:  fmt.Sprintf("C11/late-acks/%s.%d", cl.name, cl.step),
+			Bound: vrt.Budget{P: 1},
+			Cfg:   vrt.Config{Horizon: int64(60 * time.Second)},
+			Body: func() {
+				net = env.NewNet()
+				s := env.NewScript(net)
+				s.AutoConnAck = true
+				var late [][]byte
+				answerPing := false
+				s.OnPacket = func(_ *env.Script, p *env.Packet) {
+					switch p.Type {
+					case env.PUBLISH:
+						if p.QoS == 1 {
+							late = append(late, env.EncAck(env.PUBACK, p.ID))
+						} else if p.QoS == 2 {
+							if cl.step == 1 {
+								s.Conn.Send(env.EncAck(env.PUBREC, p.ID), "")
+							} else {
+								late = append(late, env.EncAck(env.PUBREC, p.ID))
+							}
+						}
+					case env.PUBREL:
+						late = append(late, env.EncAck(env.PUBCOMP, p.ID))
+					case env.SUBSCRIBE:
+						late = append(late, env.EncSubAck(p.ID, []byte{1}))
+					case env.UNSUBSCRIBE:
+						late = append(late, env.EncAck(env.UNSUBACK, p.ID))
+					case env.PINGREQ:
+						if answerPing {
+							s.Conn.Send(env.EncPingResp(), "")
+						} else {
+							late = append(late, env.EncPingResp())
+						}
+					}
+				}
+				cli := &mqtt.BaseClient{Transport: s.Conn}
+				bg := vctx.Background()
+				if _, err := cli.Connect(bg, "c11"); err != nil {
+					vrt.Failf("harness", "connect: %v", err)
+					return
+				}
+				doneSeen := false
+				vrt.GoDaemon("done-watch", func() { vrt.Recv(cli.Done()); doneSeen = true })
+				rounds := 1
+				if cl.name == "ping" {
+					rounds = 2
+				}
+				for r := 0; r < rounds; r++ {
+					ctx, cancel := vctx.WithCancel(bg)
+					ret := false
+					vrt.Go("caller", func() {
+						switch cl.name {
+						case "p1":
+							cli.Publish(ctx, &mqtt.Message{Topic: "t", QoS: mqtt.QoS1, Payload: []byte("x")})
+						case "p2":
+							cli.Publish(ctx, &mqtt.Message{Topic: "t", QoS: mqtt.QoS2, Payload: []byte("y")})
+						case "sub":
+							cli.Subscribe(ctx, mqtt.Subscription{Topic: "a", QoS: mqtt.QoS1})
+						case "unsub":
+							cli.Unsubscribe(ctx, "a")
+						case "ping":
+							cli.Ping(ctx)
+						}
+						ret = true
+					})
+					vrt.Settle()
+					cancel()
+					vrt.Settle()
+					if !ret {
+						vrt.Failf("c11/still-blocked:"+cl.name+":cancel", "%s does not return after cancellation", cl.name)
+						return
+					}
+				}
+				// the late answers arrive, each one twice
+				for _, a := range late {
+					s.Send(a)
+					s.Send(a)
+				}
+				vrt.Settle()
+				answerPing = true
+				pctx, pcancel := vctx.WithTimeout(bg, 5*time.Second)
+				perr := cli.Ping(pctx)
+				pcancel()
+				if perr != nil {
+					vrt.Failf("c11/late-ack-breaks-later-call:"+cl.name, "after late acknowledgements %d x2 a fresh Ping fails: %v\n wire:\n  %s", len(late), perr, strings.Join(net.TraceStrings(), "\n  "))
+				}
+				s.Close()
+				vrt.Quiesce()
+				if !doneSeen {
+					vrt.Failf("c11/done-not-closed:late-acks:"+cl.name, "the peer closed the connection after late acknowledgements but Done() is not closed\n wire:\n  %s", strings.Join(net.TraceStrings(), "\n  "))
+				}
+				for _, t := range vrt.Tasks() {
+					if strings.HasPrefix(t.Name, "connect:") && !t.Done {
+						vrt.Failf("c11/reader-still-running:late-acks:"+cl.name, "the reader goroutine is still blocked in %s after the connection ended", t.Blocked)
+					}
+				}
+			},
+			Observe: func() uint64 { return net.TraceHash() },
+		}
+		c.Explore(sc)
+	}
 }
